@@ -1,5 +1,1377 @@
-//! (stub) filled in by the corresponding builder
-pub fn main(_args: &[String]) {
-    eprintln!("taskdrv: not implemented yet");
-    std::process::exit(2);
+//! Task-model driver (C18, C19): binds spec/TaskModel.tla to src/task/*, Replica, WorkingSet and
+//! DependencyMap through the public API only.
+//!
+//! * `task-read` / `task-mutate --in stimuli.ndjson --out trace.ndjson [--dir d]`: each input line
+//!   is one behaviour `{id, kv, vv, canon, storage, steps:[..]}` over the specification's key and
+//!   value TOKENS; `kv`/`vv` select which of the three concrete representatives of every key /
+//!   value class is used.  Steps: `Install` (a task written through TaskData::create/update and
+//!   committed), `Load` (get_task / create_task / get_task_data), `Mut` (one mutator call),
+//!   `Commit`, `Read` (EVERY read accessor of Task, TaskData, WorkingSet, DependencyMap and
+//!   Replica on the task reloaded from the replica, each under catch_unwind; a panic is the result
+//!   token "panic"), `ReadObj` (the Task readers on the object in hand).
+//! * `task-read --random N --seed S --out trace.ndjson`: tasks over seeded random keys and values;
+//!   the class of every string is computed here with i128 arithmetic, independently of chrono.
+//!
+//! Every event carries the class map of the object / stored task, re-derived from the concrete
+//! strings read back from the real code.
+#![allow(deprecated)]
+use crate::{arg, local_block_on};
+use chrono::{DateTime, TimeZone, Utc};
+use serde_json::{json, Value};
+use std::collections::HashMap;
+use std::future::Future;
+use std::io::{BufRead, Write};
+use std::panic::{catch_unwind, AssertUnwindSafe};
+use std::path::PathBuf;
+use std::pin::Pin;
+use std::sync::Mutex;
+use std::task::{Context, Poll};
+use taskchampion::storage::inmemory::InMemoryStorage;
+use taskchampion::storage::{AccessMode, Storage};
+use taskchampion::{
+    Annotation, Operation, Operations, Replica, SqliteStorage, Status, Tag, Task, TaskData, Uuid,
+};
+
+const NOVAL: &str = "~";
+/// seconds of the last / first instant chrono's DateTime<Utc> can represent (+262142-12-31T23:59:59,
+/// -262143-01-01T00:00:00), computed from the proleptic Gregorian calendar (tools: see c18.py)
+const CAL_MAX: i128 = 8_210_266_876_799;
+const CAL_MIN: i128 = -8_334_601_228_800;
+
+static LAST_PANIC: Mutex<String> = Mutex::new(String::new());
+
+fn tid(n: u128) -> Uuid {
+    Uuid::from_u128(0x7a5c_0000_0000_0000_0000_0000_0000_0000u128 + n)
+}
+
+fn task_tok(u: Uuid) -> String {
+    for n in [1u128, 2, 3, 4, 9] {
+        if u == tid(n) {
+            return format!("t{n}");
+        }
+    }
+    format!("?{u}")
+}
+
+// ---------------------------------------------------------------------------------------------
+// classes of strings, independent of chrono
+
+#[derive(PartialEq, Debug, Clone, Copy)]
+enum Int {
+    No,
+    Big,
+    N(i128),
+}
+
+/// What `str::parse::<i64>` accepts, evaluated in i128: optional sign, then ASCII digits only.
+fn parse_int(s: &str) -> Int {
+    let b = s.as_bytes();
+    let (neg, digits) = match b.first() {
+        Some(b'+') => (false, &b[1..]),
+        Some(b'-') => (true, &b[1..]),
+        _ => (false, b),
+    };
+    if digits.is_empty() || !digits.iter().all(|c| c.is_ascii_digit()) {
+        return Int::No;
+    }
+    let sig: Vec<u8> = digits.iter().copied().skip_while(|c| *c == b'0').collect();
+    if sig.len() > 30 {
+        return Int::Big;
+    }
+    let mut v: i128 = 0;
+    for c in sig {
+        v = v * 10 + (c - b'0') as i128;
+    }
+    Int::N(if neg { -v } else { v })
+}
+
+fn is_canonical_int(s: &str, v: i128) -> bool {
+    s == v.to_string()
+}
+
+/// The value class of an arbitrary string (the tokens of TaskModel.tla).
+fn classify_value(s: &str, lo: i64, hi: i64) -> &'static str {
+    if s.is_empty() {
+        return "empty";
+    }
+    match s {
+        "pending" => return "pending",
+        "completed" => return "completed",
+        "deleted" => return "deleted",
+        "recurring" => return "recurring",
+        _ => {}
+    }
+    match parse_int(s) {
+        Int::Big => "huge",
+        Int::N(v) => {
+            if v > i64::MAX as i128 || v < i64::MIN as i128 {
+                "huge"
+            } else if v > CAL_MAX {
+                "far"
+            } else if v < CAL_MIN {
+                "negfar"
+            } else if v >= lo as i128 && v <= hi as i128 {
+                "now"
+            } else if v > hi as i128 {
+                "future"
+            } else if v < 0 {
+                "neg"
+            } else if is_canonical_int(s, v) {
+                "past"
+            } else {
+                "pastx"
+            }
+        }
+        Int::No => {
+            let signless = s.trim_start_matches(['+', '-']);
+            if !signless.is_empty()
+                && signless.chars().all(|c| c.is_numeric())
+                && signless.chars().any(|c| !c.is_ascii())
+            {
+                "fw"
+            } else {
+                "nonnum"
+            }
+        }
+    }
+}
+
+/// tag syntax of docs/src/tags.md, written out independently of src/task/tag.rs
+fn user_tag_ok(t: &str) -> bool {
+    let mut ch = t.chars();
+    let Some(c0) = ch.next() else { return false };
+    if t.chars().all(|c| c.is_ascii_uppercase()) {
+        return false; // reserved for synthetic tags
+    }
+    if c0.is_whitespace() || c0.is_ascii_digit() || "+-*/()<>^!%=~".contains(c0) {
+        return false;
+    }
+    ch.all(|c| !c.is_whitespace() && c != ':')
+}
+
+/// uuid syntaxes accepted by the uuid crate: simple, hyphenated, urn, braced
+fn uuid_value(s: &str) -> Option<u128> {
+    let s = if let Some(r) = s.strip_prefix("urn:uuid:") {
+        if r.len() != 36 {
+            return None;
+        }
+        r
+    } else if s.starts_with('{') && s.ends_with('}') && s.len() == 38 {
+        &s[1..37]
+    } else {
+        s
+    };
+    let hex: String = if s.len() == 36 {
+        let b = s.as_bytes();
+        if b[8] != b'-' || b[13] != b'-' || b[18] != b'-' || b[23] != b'-' {
+            return None;
+        }
+        s.chars().filter(|c| *c != '-').collect()
+    } else {
+        s.to_string()
+    };
+    if hex.len() != 32 || !hex.chars().all(|c| c.is_ascii_hexdigit()) {
+        return None;
+    }
+    u128::from_str_radix(&hex, 16).ok()
+}
+
+/// The key token of an arbitrary key (random mode).
+fn classify_key(k: &str) -> String {
+    const PROPS: [&str; 9] = [
+        "status", "description", "modified", "start", "end", "priority", "wait", "entry", "due",
+    ];
+    if PROPS.contains(&k) {
+        return k.to_string();
+    }
+    if let Some(t) = k.strip_prefix("tag_") {
+        return if t.is_empty() {
+            "tag:empty"
+        } else if t == "WAITING" {
+            "tag:synth"
+        } else if user_tag_ok(t) {
+            "tag:valid"
+        } else if t.chars().skip(1).any(|c| c.is_whitespace() || c == ':') {
+            "tag:sep"
+        } else {
+            "tag:malformed"
+        }
+        .to_string();
+    }
+    if let Some(t) = k.strip_prefix("annotation_") {
+        return match parse_int(t) {
+            Int::Big => "ann:huge",
+            Int::N(v) => {
+                if v > i64::MAX as i128 || v < i64::MIN as i128 {
+                    "ann:huge"
+                } else if v > CAL_MAX {
+                    "ann:far"
+                } else if v < CAL_MIN {
+                    "ann:negfar"
+                } else if !is_canonical_int(t, v) {
+                    "ann:plus"
+                } else if v < 0 {
+                    "ann:neg"
+                } else {
+                    "ann:valid"
+                }
+            }
+            Int::No => {
+                if t.is_empty() {
+                    "ann:empty"
+                } else if classify_value(t, 0, 0) == "fw" {
+                    "ann:fw"
+                } else {
+                    "ann:nonnum"
+                }
+            }
+        }
+        .to_string();
+    }
+    if let Some(t) = k.strip_prefix("dep_") {
+        return match uuid_value(t) {
+            Some(v) if v == tid(2).as_u128() => "dep:t2",
+            Some(v) if v == tid(3).as_u128() => "dep:t3",
+            Some(v) if v == tid(1).as_u128() => "dep:self",
+            Some(_) => "dep:missing",
+            None if t.is_empty() => "dep:empty",
+            None => "dep:malformed",
+        }
+        .to_string();
+    }
+    if k.is_empty() {
+        "uda:empty".into()
+    } else if k.contains('.') {
+        "uda:ns".into()
+    } else {
+        "uda:plain".into()
+    }
+}
+
+// ---------------------------------------------------------------------------------------------
+// concrete representatives of the tokens
+
+const KEY_TOKENS: [&str; 37] = [
+    "status", "description", "modified", "start", "end", "priority", "wait", "entry", "due",
+    "tag:valid", "tag:valid2", "tag:synth", "tag:empty", "tag:malformed", "tag:sep",
+    "ann:valid", "ann:valid2", "ann:neg", "ann:plus", "ann:empty", "ann:nonnum", "ann:far",
+    "ann:huge", "ann:negfar", "ann:fw", "ann:sep",
+    "dep:t2", "dep:t3", "dep:self", "dep:missing", "dep:empty", "dep:malformed", "dep:sep",
+    "uda:plain", "uda:ns", "uda:near", "uda:empty",
+];
+const VAL_TOKENS: [&str; 21] = [
+    "empty", "nonnum", "past", "past2", "pastx", "neg", "future", "future2", "far", "huge",
+    "negfar", "fw", "pending", "completed", "deleted", "recurring", "unknown", "text", "text2",
+    "now", "~",
+];
+
+fn s3(a: &str, b: &str, c: &str) -> [String; 3] {
+    [a.to_string(), b.to_string(), c.to_string()]
+}
+
+fn dep_reps(u: Uuid) -> [String; 3] {
+    [
+        format!("dep_{}", u.hyphenated()),
+        format!("dep_{}", u.hyphenated().to_string().to_uppercase()),
+        format!("dep_{}", u.simple()),
+    ]
+}
+
+fn key_reps(tok: &str) -> [String; 3] {
+    let t2 = tid(2).hyphenated().to_string();
+    match tok {
+        "tag:valid" => s3("tag_ok", "tag_\u{1f980}x", "tag_:abc"),
+        "tag:valid2" => s3("tag_next", "tag_a123_456", "tag_z"),
+        "tag:synth" => s3("tag_WAITING", "tag_WAITING", "tag_WAITING"),
+        "tag:empty" => s3("tag_", "tag_", "tag_"),
+        "tag:malformed" => s3("tag_999", "tag_+x", "tag_NOSUCH"),
+        "tag:sep" => s3("tag_a:b", "tag_a b", "tag_a\tb"),
+        "ann:valid" => s3("annotation_1693329505", "annotation_0", "annotation_2000000000"),
+        "ann:valid2" => s3("annotation_1693329506", "annotation_1", "annotation_8210266876799"),
+        "ann:neg" => s3("annotation_-1", "annotation_-62167219201", "annotation_-8334601228800"),
+        "ann:plus" => s3("annotation_+7", "annotation_007", "annotation_-0"),
+        "ann:empty" => s3("annotation_", "annotation_", "annotation_"),
+        "ann:nonnum" => s3("annotation_abc", "annotation_12x", "annotation_ 12"),
+        "ann:far" => s3(
+            "annotation_8210266876800",
+            "annotation_8210298412800",
+            "annotation_9223372036854775807",
+        ),
+        "ann:huge" => s3(
+            "annotation_9223372036854775808",
+            "annotation_99999999999999999999999999",
+            "annotation_-9223372036854775809",
+        ),
+        "ann:negfar" => s3(
+            "annotation_-8334601228801",
+            "annotation_-8334632937600",
+            "annotation_-9223372036854775808",
+        ),
+        "ann:fw" => s3(
+            "annotation_\u{ff11}\u{ff12}\u{ff13}",
+            "annotation_\u{661}\u{662}\u{663}",
+            "annotation_1\u{ff12}3",
+        ),
+        "ann:sep" => s3("annotation_1_2", "annotation_annotation_5", "annotation_12 3"),
+        "dep:t2" => dep_reps(tid(2)),
+        "dep:t3" => dep_reps(tid(3)),
+        "dep:self" => dep_reps(tid(1)),
+        "dep:missing" => dep_reps(tid(9)),
+        "dep:empty" => s3("dep_", "dep_", "dep_"),
+        "dep:malformed" => s3("dep_xyz", "dep_1234", "dep_zzzzzzzz-zzzz-zzzz-zzzz-zzzzzzzzzzzz"),
+        "dep:sep" => [format!("dep_{t2}_x"), format!("dep_dep_{t2}"), format!("dep_{t2} ")],
+        "uda:plain" => s3("githubid", "Status", "tags"),
+        "uda:ns" => s3("ns.key", "a.b.c", "trailing."),
+        "uda:near" => s3("tag", "annotation", "dep"),
+        "uda:empty" => s3("", "", ""),
+        p => s3(p, p, p),
+    }
+}
+
+fn val_reps(tok: &str) -> [String; 3] {
+    match tok {
+        "empty" => s3("", "", ""),
+        "nonnum" => s3("abc", "12a", " 12"),
+        "past" => s3("0", "1600000000", "5"),
+        "past2" => s3("1", "1500000000", "6"),
+        "pastx" => s3("+5", "007", "-0"),
+        "neg" => s3("-1", "-62167219201", "-8334601228800"),
+        "future" => s3("4102444800", "8210266876799", "32503680000"),
+        "future2" => s3("4102444801", "8210266876798", "32503680001"),
+        "far" => s3("8210266876800", "8210298412800", "9223372036854775807"),
+        "huge" => s3(
+            "9223372036854775808",
+            "99999999999999999999999999",
+            "-9223372036854775809",
+        ),
+        "negfar" => s3("-8334601228801", "-8334632937600", "-9223372036854775808"),
+        "fw" => s3("\u{ff11}\u{ff12}\u{ff13}", "\u{661}\u{662}\u{663}", "1\u{ff12}3"),
+        "unknown" => s3("Pending", "waiting", "PENDING "),
+        "text" => s3(
+            "some text",
+            "\u{fc}n\u{ef} \u{2713} \"q\" \\ \n\u{1f600}",
+            "a:b c_d.e=1",
+        ),
+        "text2" => s3("other", "second \u{2713}", "x"),
+        p => s3(p, p, p),
+    }
+}
+
+/// token <-> concrete string for one behaviour
+struct Tab {
+    kv: usize,
+    vv: usize,
+    canon: bool,
+    krev: HashMap<String, String>,
+    vrev: HashMap<String, String>,
+    /// wall-clock window of this run: values inside are the token "now"
+    lo: i64,
+    random: bool,
+}
+
+impl Tab {
+    fn new(kv: usize, vv: usize, canon: bool, lo: i64) -> Tab {
+        let mut t = Tab {
+            kv,
+            vv,
+            canon,
+            krev: HashMap::new(),
+            vrev: HashMap::new(),
+            lo,
+            random: false,
+        };
+        for k in KEY_TOKENS {
+            let c = t.key(k);
+            t.krev.insert(c, k.to_string());
+        }
+        for v in VAL_TOKENS {
+            if v != "now" && v != NOVAL {
+                let c = t.val(v);
+                t.vrev.insert(c, v.to_string());
+            }
+        }
+        t
+    }
+
+    fn hi(&self) -> i64 {
+        Utc::now().timestamp() + 5
+    }
+
+    fn key(&self, tok: &str) -> String {
+        let i = if self.canon && tok.starts_with("dep:") { 0 } else { self.kv };
+        key_reps(tok)[i].clone()
+    }
+
+    fn val(&self, tok: &str) -> String {
+        val_reps(tok)[self.vv].clone()
+    }
+
+    fn key_tok(&self, s: &str) -> String {
+        match self.krev.get(s) {
+            Some(t) => t.clone(),
+            None => format!("?{s}"),
+        }
+    }
+
+    fn val_tok(&self, s: &str) -> String {
+        let class = classify_value(s, self.lo, self.hi());
+        if self.random {
+            return class.to_string();
+        }
+        match self.vrev.get(s) {
+            Some(t) => {
+                // self-check of the classifier against the table (same class, up to the
+                // numbered tokens)
+                let base = t.trim_end_matches('2');
+                let cb = match class {
+                    "nonnum" if matches!(base, "text" | "unknown") => base,
+                    c => c,
+                };
+                if cb != base {
+                    return format!("classifier-disagrees:{t}:{class}");
+                }
+                t.clone()
+            }
+            None => class.to_string(),
+        }
+    }
+}
+
+// ---------------------------------------------------------------------------------------------
+// panic capture
+
+fn guard<T>(f: impl FnOnce() -> T) -> Result<T, String> {
+    catch_unwind(AssertUnwindSafe(f)).map_err(|_| LAST_PANIC.lock().unwrap().clone())
+}
+
+struct CatchUnwind<F>(Pin<Box<F>>);
+
+impl<F: Future> Future for CatchUnwind<F> {
+    type Output = Result<F::Output, String>;
+    fn poll(mut self: Pin<&mut Self>, cx: &mut Context<'_>) -> Poll<Self::Output> {
+        match catch_unwind(AssertUnwindSafe(|| self.0.as_mut().poll(cx))) {
+            Ok(Poll::Ready(v)) => Poll::Ready(Ok(v)),
+            Ok(Poll::Pending) => Poll::Pending,
+            Err(_) => Poll::Ready(Err(LAST_PANIC.lock().unwrap().clone())),
+        }
+    }
+}
+
+fn aguard<F: Future>(f: F) -> CatchUnwind<F> {
+    CatchUnwind(Box::pin(f))
+}
+
+/// result of a guarded call that itself returns Result: token or "panic" / "error"
+struct Sweep {
+    s: Vec<Value>,
+    l: Vec<Value>,
+    p: Vec<Value>,
+    rs: Vec<Value>,
+    rl: Vec<Value>,
+    /// true while the replica-level readers are swept
+    replica: bool,
+    panics: Vec<String>,
+}
+
+impl Sweep {
+    fn new() -> Sweep {
+        Sweep { s: vec![], l: vec![], p: vec![], rs: vec![], rl: vec![], replica: false, panics: vec![] }
+    }
+    fn scalar(&mut self, f: &str, k: &str, r: Result<String, String>) {
+        let res = match r {
+            Ok(t) => t,
+            Err(msg) => {
+                let tok = if msg.starts_with("error:") { "error" } else { "panic" };
+                self.panics.push(format!("{f}({k}): {msg}"));
+                tok.to_string()
+            }
+        };
+        if self.replica {
+            self.rs.push(json!([f, k, res]));
+        } else {
+            self.s.push(json!([f, k, res]));
+        }
+    }
+    fn list(&mut self, f: &str, k: &str, r: Result<Vec<String>, String>) {
+        match r {
+            Ok(mut v) => {
+                v.sort();
+                if self.replica {
+                    self.rl.push(json!([f, k, v]));
+                } else {
+                    self.l.push(json!([f, k, v]));
+                }
+            }
+            Err(msg) => {
+                self.panics.push(format!("{f}({k}): {msg}"));
+                if self.replica {
+                    self.rl.push(json!([f, k, ["panic"]]));
+                } else {
+                    self.l.push(json!([f, k, ["panic"]]));
+                }
+            }
+        }
+    }
+    fn pairs(&mut self, f: &str, k: &str, r: Result<Vec<(String, String)>, String>) {
+        match r {
+            Ok(mut v) => {
+                v.sort();
+                self.p.push(json!([f, k, v]));
+            }
+            Err(msg) => {
+                self.panics.push(format!("{f}({k}): {msg}"));
+                self.p.push(json!([f, k, [["panic", "panic"]]]));
+            }
+        }
+    }
+}
+
+fn b(x: bool) -> String {
+    if x { "true" } else { "false" }.to_string()
+}
+
+fn status_tok(s: &Status) -> String {
+    match s {
+        Status::Pending => "pending",
+        Status::Completed => "completed",
+        Status::Deleted => "deleted",
+        Status::Recurring => "recurring",
+        Status::Unknown(_) => "unknown",
+    }
+    .to_string()
+}
+
+/// a returned time must be exactly the stored number
+fn ts_tok(tab: &Tab, r: Option<DateTime<Utc>>, stored: Option<&str>) -> String {
+    match r {
+        None => "none".into(),
+        Some(dt) => match stored {
+            Some(s) if parse_int(s) == Int::N(dt.timestamp() as i128) => tab.val_tok(s),
+            _ => format!("wrong-time:{}", dt.timestamp()),
+        },
+    }
+}
+
+fn opt_tok(tab: &Tab, r: Option<&str>) -> String {
+    match r {
+        None => "none".into(),
+        Some(s) => tab.val_tok(s),
+    }
+}
+
+fn split_uda(key: &str) -> (String, String) {
+    match key.split_once('.') {
+        Some((a, b)) => (a.to_string(), b.to_string()),
+        None => (String::new(), key.to_string()),
+    }
+}
+
+fn join_uda(ns: &str, key: &str) -> String {
+    if ns.is_empty() {
+        key.to_string()
+    } else {
+        format!("{ns}.{key}")
+    }
+}
+
+fn map_pairs<'a>(tab: &Tab, it: impl Iterator<Item = (&'a String, &'a String)>) -> Vec<(String, String)> {
+    let mut v: Vec<(String, String)> = it.map(|(k, v)| (tab.key_tok(k), tab.val_tok(v))).collect();
+    v.sort();
+    v
+}
+
+/// every read accessor of Task and TaskData
+fn sweep_task(task: &Task, tab: &Tab, sw: &mut Sweep) {
+    let keys: Vec<String> = match guard(|| {
+        task.clone().into_task_data().properties().cloned().collect::<Vec<String>>()
+    }) {
+        Ok(k) => k,
+        Err(m) => {
+            sw.panics.push(format!("properties: {m}"));
+            vec![]
+        }
+    };
+    sw.scalar("get_uuid", "-", guard(|| task_tok(task.get_uuid())));
+    sw.scalar("get_status", "-", guard(|| status_tok(&task.get_status())));
+    sw.scalar("get_description", "-", guard(|| tab.val_tok(task.get_description())));
+    sw.scalar("get_priority", "-", guard(|| tab.val_tok(task.get_priority())));
+    sw.scalar("get_entry", "-", guard(|| ts_tok(tab, task.get_entry(), task.get_value("entry"))));
+    sw.scalar("get_wait", "-", guard(|| ts_tok(tab, task.get_wait(), task.get_value("wait"))));
+    sw.scalar(
+        "get_modified",
+        "-",
+        guard(|| ts_tok(tab, task.get_modified(), task.get_value("modified"))),
+    );
+    sw.scalar("get_due", "-", guard(|| ts_tok(tab, task.get_due(), task.get_value("due"))));
+    sw.scalar("is_waiting", "-", guard(|| b(task.is_waiting())));
+    sw.scalar("is_active", "-", guard(|| b(task.is_active())));
+    sw.scalar("is_blocked", "-", guard(|| b(task.is_blocked())));
+    sw.scalar("is_blocking", "-", guard(|| b(task.is_blocking())));
+    sw.scalar("eq_clone", "-", guard(|| b(task.clone() == *task)));
+    sw.scalar("debug", "-", guard(|| {
+        let s = format!("{task:?}");
+        if s.is_empty() { "empty".to_string() } else { "ok".to_string() }
+    }));
+    for name in [
+        "WAITING", "ACTIVE", "PENDING", "COMPLETED", "DELETED", "BLOCKED", "UNBLOCKED", "BLOCKING",
+    ] {
+        sw.scalar("has_tag", name, guard(|| {
+            let t: Tag = name.parse().unwrap();
+            b(task.has_tag(&t))
+        }));
+    }
+    for ck in &keys {
+        let kt = tab.key_tok(ck);
+        if kt == "tag:valid" || kt == "tag:valid2" {
+            sw.scalar("has_tag", &kt, guard(|| {
+                let t: Tag = ck["tag_".len()..].parse().unwrap();
+                b(task.has_tag(&t))
+            }));
+        }
+        sw.scalar("get_value", &kt, guard(|| opt_tok(tab, task.get_value(ck.clone()))));
+        sw.scalar(
+            "get_timestamp",
+            &kt,
+            guard(|| ts_tok(tab, task.get_timestamp(ck), task.get_value(ck.clone()))),
+        );
+        sw.scalar(
+            "get_user_defined_attribute",
+            &kt,
+            guard(|| opt_tok(tab, task.get_user_defined_attribute(ck))),
+        );
+        sw.scalar("get_legacy_uda", &kt, guard(|| opt_tok(tab, task.get_legacy_uda(ck))));
+        sw.scalar("get_uda", &kt, guard(|| {
+            let (ns, key) = split_uda(ck);
+            opt_tok(tab, task.get_uda(&ns, &key))
+        }));
+        sw.scalar("data.get", &kt, guard(|| {
+            let d = task.clone().into_task_data();
+            opt_tok(tab, d.get(ck))
+        }));
+        sw.scalar("data.has", &kt, guard(|| b(task.clone().into_task_data().has(ck))));
+    }
+    sw.list("get_tags", "-", guard(|| {
+        task.get_tags()
+            .map(|t| {
+                if t.is_synthetic() {
+                    t.to_string()
+                } else {
+                    tab.key_tok(&format!("tag_{t}"))
+                }
+            })
+            .collect()
+    }));
+    sw.list(
+        "get_dependencies",
+        "-",
+        guard(|| task.get_dependencies().map(task_tok).collect()),
+    );
+    sw.list("data.properties", "-", guard(|| {
+        task.clone().into_task_data().properties().map(|k| tab.key_tok(k)).collect()
+    }));
+    sw.pairs("get_annotations", "-", guard(|| {
+        task.get_annotations()
+            .map(|a: Annotation| {
+                // the stored key whose suffix is this number
+                let secs = a.entry.timestamp() as i128;
+                let key = keys
+                    .iter()
+                    .find(|k| {
+                        k.strip_prefix("annotation_").map(parse_int) == Some(Int::N(secs))
+                            && task.get_value((*k).clone()) == Some(a.description.as_str())
+                    })
+                    .map(|k| tab.key_tok(k))
+                    .unwrap_or_else(|| format!("?annotation@{secs}"));
+                (key, tab.val_tok(&a.description))
+            })
+            .collect()
+    }));
+    sw.pairs("get_udas", "-", guard(|| {
+        task.get_udas()
+            .map(|((ns, key), v)| (tab.key_tok(&join_uda(ns, key)), tab.val_tok(v)))
+            .collect()
+    }));
+    sw.pairs("get_legacy_udas", "-", guard(|| {
+        task.get_legacy_udas().map(|(k, v)| (tab.key_tok(k), tab.val_tok(v))).collect()
+    }));
+    sw.pairs("get_user_defined_attributes", "-", guard(|| {
+        task.get_user_defined_attributes()
+            .map(|(k, v)| (tab.key_tok(k), tab.val_tok(v)))
+            .collect()
+    }));
+    sw.pairs("data.iter", "-", guard(|| {
+        let d = task.clone().into_task_data();
+        let v = map_pairs(tab, d.iter());
+        v
+    }));
+    sw.pairs("get_taskmap", "-", guard(|| map_pairs(tab, task.get_taskmap().iter())));
+}
+
+fn cnt(n: usize) -> String {
+    if n <= 3 { n.to_string() } else { "many".to_string() }
+}
+
+fn flat<T>(r: Result<Result<T, taskchampion::Error>, String>) -> Result<T, String> {
+    match r {
+        Ok(Ok(v)) => Ok(v),
+        Ok(Err(e)) => Err(format!("error: {e}")),
+        Err(m) => Err(m),
+    }
+}
+
+/// every read accessor of Replica, WorkingSet and DependencyMap
+async fn sweep_replica<S: Storage>(rep: &mut Replica<S>, sw: &mut Sweep, expire: bool) {
+    let t1 = tid(1);
+    sw.replica = true;
+    let r = flat(aguard(rep.get_task(t1)).await);
+    sw.scalar("get_task", "-", r.map(|t| if t.is_some() { "some" } else { "none" }.to_string()));
+    let r = flat(aguard(rep.get_task_data(t1)).await);
+    let stored: Option<TaskData> = r.clone().ok().flatten();
+    sw.scalar("get_task_data", "-", r.map(|t| if t.is_some() { "some" } else { "none" }.to_string()));
+
+    match flat(aguard(rep.working_set()).await) {
+        Ok(ws) => {
+            sw.scalar("ws.len", "-", guard(|| cnt(ws.len())));
+            sw.scalar("ws.largest_index", "-", guard(|| cnt(ws.largest_index())));
+            sw.scalar("ws.is_empty", "-", guard(|| b(ws.is_empty())));
+            for n in [1u128, 2, 3] {
+                sw.scalar("ws.by_uuid", &format!("t{n}"), guard(|| {
+                    if ws.by_uuid(tid(n)).is_some() { "some" } else { "none" }.to_string()
+                }));
+            }
+            sw.scalar("ws.consistent", "-", guard(|| {
+                let mut ok = ws.by_index(0).is_none() && ws.by_index(ws.largest_index() + 1).is_none();
+                let mut n = 0;
+                for (i, u) in ws.iter() {
+                    n += 1;
+                    ok = ok && ws.by_index(i) == Some(u) && ws.by_uuid(u) == Some(i);
+                    ok = ok && i >= 1 && i <= ws.largest_index();
+                }
+                b(ok && n == ws.len())
+            }));
+            sw.list("ws.iter", "-", guard(|| ws.iter().map(|(_, u)| task_tok(u)).collect()));
+        }
+        Err(m) => {
+            sw.scalar("ws.len", "-", Err(m));
+        }
+    }
+    sw.scalar(
+        "num_local_operations",
+        "-",
+        flat(aguard(rep.num_local_operations()).await).map(|_| "ok".to_string()),
+    );
+    sw.scalar(
+        "num_undo_points",
+        "-",
+        flat(aguard(rep.num_undo_points()).await).map(|_| "ok".to_string()),
+    );
+    sw.scalar(
+        "get_undo_operations",
+        "-",
+        flat(aguard(rep.get_undo_operations()).await).map(|_| "ok".to_string()),
+    );
+    sw.scalar(
+        "get_task_operations",
+        "t1",
+        flat(aguard(rep.get_task_operations(t1)).await).map(|_| "ok".to_string()),
+    );
+
+    let r = flat(aguard(rep.all_tasks()).await);
+    // the Task handed out by all_tasks carries the same map as get_task_data
+    let same = r.as_ref().ok().map(|all| {
+        all.get(&t1).map(|t| t.clone().into_task_data()) == stored
+    });
+    sw.list("all_tasks", "-", r.map(|m| m.keys().map(|u| task_tok(*u)).collect()));
+    sw.scalar("all_tasks.t1eq", "-", Ok(b(same.unwrap_or(false))));
+    let r = flat(aguard(rep.all_task_data()).await);
+    sw.list("all_task_data", "-", r.map(|m| m.keys().map(|u| task_tok(*u)).collect()));
+    let r = flat(aguard(rep.all_task_uuids()).await);
+    sw.list("all_task_uuids", "-", r.map(|v| v.iter().map(|u| task_tok(*u)).collect()));
+    let r = flat(aguard(rep.pending_tasks()).await);
+    sw.list("pending_tasks", "-", r.map(|v| v.iter().map(|t| task_tok(t.get_uuid())).collect()));
+    let r = flat(aguard(rep.pending_task_data()).await);
+    sw.list("pending_task_data", "-", r.map(|v| v.iter().map(|t| task_tok(t.get_uuid())).collect()));
+
+    for (name, force) in [("dm", false), ("dmf", true)] {
+        match flat(aguard(rep.dependency_map(force)).await) {
+            Ok(dm) => {
+                for n in [1u128, 2, 4] {
+                    sw.list(
+                        &format!("{name}.dependencies"),
+                        &format!("t{n}"),
+                        guard(|| dm.dependencies(tid(n)).map(task_tok).collect()),
+                    );
+                    sw.list(
+                        &format!("{name}.dependents"),
+                        &format!("t{n}"),
+                        guard(|| dm.dependents(tid(n)).map(task_tok).collect()),
+                    );
+                }
+            }
+            Err(m) => sw.list(&format!("{name}.dependencies"), "t1", Err(m)),
+        }
+    }
+
+    if expire {
+        let r = flat(aguard(rep.expire_tasks()).await);
+        let after = flat(aguard(rep.get_task_data(t1)).await);
+        let res = match (r, after) {
+            (Err(m), _) | (_, Err(m)) => Err(m),
+            (Ok(()), Ok(a)) => Ok(match (stored.is_some(), a.is_some()) {
+                (false, _) => "absent",
+                (true, true) => "kept",
+                (true, false) => "gone",
+            }
+            .to_string()),
+        };
+        sw.scalar("expire", "t1", res);
+    }
+}
+
+// ---------------------------------------------------------------------------------------------
+// executing behaviours
+
+enum Obj {
+    None,
+    Task(Task),
+    Data(TaskData),
+}
+
+impl Obj {
+    fn kind(&self) -> &'static str {
+        match self {
+            Obj::None => "none",
+            Obj::Task(_) => "task",
+            Obj::Data(_) => "data",
+        }
+    }
+    fn map(&self, tab: &Tab) -> Vec<(String, String)> {
+        match self {
+            Obj::None => vec![],
+            Obj::Task(t) => map_pairs(tab, t.get_taskmap().iter()),
+            Obj::Data(d) => map_pairs(tab, d.iter()),
+        }
+    }
+}
+
+fn ops_json(tab: &Tab, ops: &Operations) -> Value {
+    let mut out = vec![];
+    for op in ops {
+        let u = op.get_uuid().map(task_tok).unwrap_or_else(|| "-".into());
+        out.push(match op {
+            Operation::Create { .. } => json!({"k":"C","u":u,"p":"-","v":"-","o":"-","om":[],"t":"-"}),
+            Operation::Delete { old_task, .. } => {
+                json!({"k":"D","u":u,"p":"-","v":"-","o":"-","om":map_pairs(tab, old_task.iter()),"t":"-"})
+            }
+            Operation::Update { property, value, old_value, timestamp, .. } => {
+                let ts = timestamp.timestamp();
+                let t = if ts >= tab.lo && ts <= tab.hi() { "now".to_string() } else { ts.to_string() };
+                json!({"k":"U","u":u,"p":tab.key_tok(property),
+                       "v": value.as_deref().map(|s| tab.val_tok(s)).unwrap_or_else(|| NOVAL.into()),
+                       "o": old_value.as_deref().map(|s| tab.val_tok(s)).unwrap_or_else(|| NOVAL.into()),
+                       "om":[],"t":t})
+            }
+            Operation::UndoPoint => json!({"k":"P","u":"-","p":"-","v":"-","o":"-","om":[],"t":"-"}),
+        });
+    }
+    Value::Array(out)
+}
+
+fn time_of(tab: &Tab, tok: &str) -> Option<DateTime<Utc>> {
+    if tok == NOVAL {
+        return None;
+    }
+    match parse_int(&tab.val(tok)) {
+        Int::N(v) => Utc.timestamp_opt(v as i64, 0).single(),
+        _ => panic!("harness: value token {tok} is not a time"),
+    }
+}
+
+fn status_of(tab: &Tab, tok: &str) -> Status {
+    match tok {
+        "pending" => Status::Pending,
+        "completed" => Status::Completed,
+        "deleted" => Status::Deleted,
+        "recurring" => Status::Recurring,
+        t => Status::Unknown(tab.val(t)),
+    }
+}
+
+fn optval(tab: &Tab, tok: &str) -> Option<String> {
+    if tok == NOVAL { None } else { Some(tab.val(tok)) }
+}
+
+fn ann_time(tab: &Tab, k: &str) -> DateTime<Utc> {
+    let ck = tab.key(k);
+    match parse_int(&ck["annotation_".len()..]) {
+        Int::N(v) => Utc.timestamp_opt(v as i64, 0).single().expect("harness: annotation time"),
+        _ => panic!("harness: annotation key token {k} has no time"),
+    }
+}
+
+fn dep_uuid(k: &str) -> Uuid {
+    match k {
+        "dep:t2" => tid(2),
+        "dep:t3" => tid(3),
+        "dep:self" => tid(1),
+        "dep:missing" => tid(9),
+        _ => panic!("harness: {k} names no uuid"),
+    }
+}
+
+fn res_tok(r: Result<Result<(), taskchampion::Error>, String>) -> (String, Option<String>) {
+    match r {
+        Ok(Ok(())) => ("ok".into(), None),
+        Ok(Err(_)) => ("err".into(), None),
+        Err(m) => ("panic".into(), Some(m)),
+    }
+}
+
+/// one mutator call on the object in hand
+fn mutate(tab: &Tab, obj: &mut Obj, ops: &mut Operations, f: &str, k: &str, v: &str) -> (String, Option<String>) {
+    if f == "into_data" {
+        let o = std::mem::replace(obj, Obj::None);
+        *obj = match o {
+            Obj::Task(t) => Obj::Data(t.into_task_data()),
+            other => other,
+        };
+        return ("ok".into(), None);
+    }
+    match obj {
+        Obj::Task(t) => {
+            let r = guard(|| -> Result<(), taskchampion::Error> {
+                match f {
+                    "set_status" => t.set_status(status_of(tab, v), ops),
+                    "set_description" => t.set_description(tab.val(v), ops),
+                    "set_priority" => t.set_priority(tab.val(v), ops),
+                    "set_entry" => t.set_entry(time_of(tab, v), ops),
+                    "set_wait" => t.set_wait(time_of(tab, v), ops),
+                    "set_due" => t.set_due(time_of(tab, v), ops),
+                    "set_modified" => t.set_modified(time_of(tab, v).expect("time"), ops),
+                    "start" => t.start(ops),
+                    "stop" => t.stop(ops),
+                    "done" => t.done(ops),
+                    "delete" => t.delete(ops),
+                    "add_tag" | "remove_tag" => {
+                        let tag: Tag = tab.key(k)["tag_".len()..].parse().expect("harness: tag");
+                        if f == "add_tag" { t.add_tag(&tag, ops) } else { t.remove_tag(&tag, ops) }
+                    }
+                    "add_annotation" => t.add_annotation(
+                        Annotation { entry: ann_time(tab, k), description: tab.val(v) },
+                        ops,
+                    ),
+                    "remove_annotation" => t.remove_annotation(ann_time(tab, k), ops),
+                    "add_dependency" => t.add_dependency(dep_uuid(k), ops),
+                    "remove_dependency" => t.remove_dependency(dep_uuid(k), ops),
+                    "set_uda" => {
+                        let (ns, key) = split_uda(&tab.key(k));
+                        t.set_uda(ns, key, tab.val(v), ops)
+                    }
+                    "remove_uda" => {
+                        let (ns, key) = split_uda(&tab.key(k));
+                        t.remove_uda(ns, key, ops)
+                    }
+                    "set_legacy_uda" => t.set_legacy_uda(tab.key(k), tab.val(v), ops),
+                    "remove_legacy_uda" => t.remove_legacy_uda(tab.key(k), ops),
+                    "set_user_defined_attribute" => {
+                        t.set_user_defined_attribute(tab.key(k), tab.val(v), ops)
+                    }
+                    "remove_user_defined_attribute" => t.remove_user_defined_attribute(tab.key(k), ops),
+                    "set_value" => t.set_value(tab.key(k), optval(tab, v), ops),
+                    "set_timestamp" => t.set_timestamp(&tab.key(k), time_of(tab, v), ops),
+                    other => panic!("harness: unknown task mutator {other}"),
+                }
+            });
+            res_tok(r)
+        }
+        Obj::Data(d) => {
+            let r = guard(|| -> Result<(), taskchampion::Error> {
+                match f {
+                    "data.update" => d.update(tab.key(k), optval(tab, v), ops),
+                    "data.delete" => d.delete(ops),
+                    other => panic!("harness: unknown data mutator {other}"),
+                }
+                Ok(())
+            });
+            res_tok(r)
+        }
+        Obj::None => ("no-object".into(), None),
+    }
+}
+
+async fn stored_state<S: Storage>(rep: &mut Replica<S>, tab: &Tab) -> (String, Vec<(String, String)>, String) {
+    let d = rep.get_task_data(tid(1)).await.expect("get_task_data");
+    let ws = rep.working_set().await.expect("working_set");
+    let inws = ws.by_uuid(tid(1)).is_some();
+    match d {
+        Some(d) => ("true".into(), map_pairs(tab, d.iter()), b(inws)),
+        None => ("false".into(), vec![], b(inws)),
+    }
+}
+
+/// the fixed context: t2 pending, t3 completed, t4 pending and depending on t1
+async fn install_context<S: Storage>(rep: &mut Replica<S>) {
+    let mut ops = Operations::new();
+    let mut t2 = TaskData::create(tid(2), &mut ops);
+    t2.update("status", Some("pending".into()), &mut ops);
+    t2.update("description", Some("context t2".into()), &mut ops);
+    let mut t3 = TaskData::create(tid(3), &mut ops);
+    t3.update("status", Some("completed".into()), &mut ops);
+    let mut t4 = TaskData::create(tid(4), &mut ops);
+    t4.update("status", Some("pending".into()), &mut ops);
+    t4.update(format!("dep_{}", tid(1)), Some("".into()), &mut ops);
+    rep.commit_operations(ops).await.expect("context commit");
+}
+
+async fn run_behaviour<S: Storage>(rep: &mut Replica<S>, bh: &Value, lo: i64, out: &mut Vec<Value>) {
+    let kv = bh["kv"].as_u64().unwrap_or(0) as usize;
+    let vv = bh["vv"].as_u64().unwrap_or(0) as usize;
+    let canon = bh["canon"].as_bool().unwrap_or(false);
+    let mut tab = Tab::new(kv, vv, canon, lo);
+    out.push(json!({"a":"Reset","id":bh["id"],"kv":kv,"vv":vv}));
+    install_context(rep).await;
+    let mut obj = Obj::None;
+    let mut ops = Operations::new();
+    for st in bh["steps"].as_array().expect("steps") {
+        let a = st["a"].as_str().unwrap();
+        match a {
+            "Install" | "InstallRaw" => {
+                // a task as some application wrote it
+                let mut entries: Vec<(String, String, String, String)> = vec![]; // ktok, vtok, ck, cv
+                if a == "Install" {
+                    for e in st["e"].as_array().unwrap() {
+                        let (k, v) = (e[0].as_str().unwrap(), e[1].as_str().unwrap());
+                        entries.push((k.into(), v.into(), tab.key(k), tab.val(v)));
+                    }
+                } else {
+                    tab.random = true;
+                    for e in st["raw"].as_array().unwrap() {
+                        let (ck, cv) = (e[0].as_str().unwrap(), e[1].as_str().unwrap());
+                        let kt = classify_key(ck);
+                        if entries.iter().any(|x| x.0 == kt) {
+                            continue; // one key per class and task
+                        }
+                        tab.krev.insert(ck.to_string(), kt.clone());
+                        entries.push((kt, classify_value(cv, tab.lo, tab.hi()).into(), ck.into(), cv.into()));
+                    }
+                }
+                let mut o = Operations::new();
+                let mut d = TaskData::create(tid(1), &mut o);
+                for (_, _, ck, cv) in &entries {
+                    d.update(ck.clone(), Some(cv.clone()), &mut o);
+                }
+                rep.commit_operations(o).await.expect("install commit");
+                let (ex, m, ws) = stored_state(rep, &tab).await;
+                let e: Vec<(String, String)> = entries.iter().map(|x| (x.0.clone(), x.1.clone())).collect();
+                let mut ev = json!({"a":"Install","e":e,"ex":ex,"m":m,"ws":ws});
+                if a == "InstallRaw" {
+                    ev["raw"] = st["raw"].clone();
+                }
+                out.push(ev);
+            }
+            "Load" => {
+                let how = st["f"].as_str().unwrap();
+                let r: Result<Obj, String> = match how {
+                    "get_task" => flat(aguard(rep.get_task(tid(1))).await)
+                        .map(|t| t.map(Obj::Task).unwrap_or(Obj::None)),
+                    "create_task" => flat(aguard(rep.create_task(tid(1), &mut ops)).await).map(Obj::Task),
+                    "get_task_data" => flat(aguard(rep.get_task_data(tid(1))).await)
+                        .map(|t| t.map(Obj::Data).unwrap_or(Obj::None)),
+                    other => panic!("harness: Load {other}"),
+                };
+                let (res, pm) = match r {
+                    Ok(o) => {
+                        obj = o;
+                        (obj.kind().to_string(), None)
+                    }
+                    Err(m) => ("panic".to_string(), Some(m)),
+                };
+                let (blk, blkg) = match &obj {
+                    Obj::Task(t) => (b(t.is_blocked()), b(t.is_blocking())),
+                    _ => (b(false), b(false)),
+                };
+                let mut ev = json!({"a":"Load","f":how,"res":res,"m":obj.map(&tab),
+                                    "ops":ops_json(&tab, &ops),"blk":blk,"blkg":blkg});
+                if let Some(m) = pm {
+                    ev["panic"] = json!(m);
+                }
+                out.push(ev);
+            }
+            "Mut" => {
+                let (f, k, v) = (
+                    st["f"].as_str().unwrap(),
+                    st["k"].as_str().unwrap(),
+                    st["v"].as_str().unwrap(),
+                );
+                let (res, pm) = mutate(&tab, &mut obj, &mut ops, f, k, v);
+                let mut ev = json!({"a":"Mut","f":f,"k":k,"v":v,"res":res,"m":obj.map(&tab),
+                                    "ops":ops_json(&tab, &ops)});
+                if let Some(m) = pm {
+                    ev["panic"] = json!(m);
+                }
+                out.push(ev);
+            }
+            "Commit" => {
+                let o = std::mem::take(&mut ops);
+                obj = Obj::None;
+                let r = flat(aguard(rep.commit_operations(o)).await);
+                let res = match &r {
+                    Ok(()) => "ok".to_string(),
+                    Err(m) if m.starts_with("error:") => "error".to_string(),
+                    Err(_) => "panic".to_string(),
+                };
+                let (ex, m, ws) = stored_state(rep, &tab).await;
+                let mut ev = json!({"a":"Commit","res":res,"ex":ex,"m":m,"ws":ws});
+                if let Err(m) = r {
+                    ev["panic"] = json!(m);
+                }
+                out.push(ev);
+            }
+            "Read" => {
+                let expire = st["expire"].as_bool().unwrap_or(false);
+                let (ex, m, ws) = stored_state(rep, &tab).await;
+                let mut sw = Sweep::new();
+                // the task as handed out by the replica
+                match flat(aguard(rep.get_task(tid(1))).await) {
+                    Ok(Some(t)) => sweep_task(&t, &tab, &mut sw),
+                    Ok(None) => {}
+                    Err(msg) => sw.panics.push(format!("get_task: {msg}")),
+                }
+                sweep_replica(rep, &mut sw, expire).await;
+                let mut ev = json!({"a":"Read","ex":ex,"m":m,"ws":ws,"s":sw.s,"l":sw.l,"p":sw.p,
+                                    "rs":sw.rs,"rl":sw.rl});
+                if !sw.panics.is_empty() {
+                    ev["panics"] = json!(sw.panics);
+                }
+                out.push(ev);
+            }
+            "ReadObj" => {
+                if let Obj::Task(t) = &obj {
+                    let mut sw = Sweep::new();
+                    sweep_task(t, &tab, &mut sw);
+                    let mut ev = json!({"a":"ReadObj","m":obj.map(&tab),"s":sw.s,"l":sw.l,"p":sw.p});
+                    if !sw.panics.is_empty() {
+                        ev["panics"] = json!(sw.panics);
+                    }
+                    out.push(ev);
+                }
+            }
+            other => panic!("harness: unknown step {other}"),
+        }
+    }
+}
+
+// ---------------------------------------------------------------------------------------------
+// seeded random tasks (thorough tier)
+
+struct Rng(u64);
+impl Rng {
+    fn next(&mut self) -> u64 {
+        // splitmix64
+        self.0 = self.0.wrapping_add(0x9E37_79B9_7F4A_7C15);
+        let mut z = self.0;
+        z = (z ^ (z >> 30)).wrapping_mul(0xBF58_476D_1CE4_E5B9);
+        z = (z ^ (z >> 27)).wrapping_mul(0x94D0_49BB_1331_11EB);
+        z ^ (z >> 31)
+    }
+    fn below(&mut self, n: u64) -> u64 {
+        self.next() % n
+    }
+    fn pick<'a>(&mut self, v: &[&'a str]) -> &'a str {
+        v[self.below(v.len() as u64) as usize]
+    }
+}
+
+fn random_number(r: &mut Rng) -> String {
+    let anchors: [i128; 12] = [
+        0,
+        1,
+        -1,
+        CAL_MAX,
+        CAL_MIN,
+        i64::MAX as i128,
+        i64::MIN as i128,
+        -62_167_219_200,
+        253_402_300_800,
+        4_102_444_800,
+        1_000_000_000,
+        i32::MAX as i128,
+    ];
+    let base = anchors[r.below(12) as usize];
+    let delta: i128 = match r.below(6) {
+        0 => 0,
+        1 => 1,
+        2 => -1,
+        3 => r.below(1000) as i128,
+        4 => -(r.below(100_000_000_000) as i128),
+        _ => r.below(100_000_000_000_000) as i128,
+    };
+    let v = base + delta;
+    let mut s = match r.below(8) {
+        0 => format!("+{v}"),
+        1 => {
+            if v < 0 {
+                format!("-00{}", -v)
+            } else {
+                format!("00{v}")
+            }
+        }
+        _ => v.to_string(),
+    };
+    match r.below(20) {
+        0 => s.push(' '),
+        1 => s.insert(0, ' '),
+        2 => s.push_str("0000000000000000"),
+        3 => s.push_str(".0"),
+        4 => s = s.replace('1', "\u{ff11}"),
+        5 => s.push('e'),
+        _ => {}
+    }
+    s
+}
+
+fn random_text(r: &mut Rng) -> String {
+    let pieces = [
+        "a", "Z", "9", " ", ":", "_", ".", "-", "+", "\t", "\n", "\u{1f980}", "\u{fc}", "\u{ff11}",
+        "\u{661}", "\u{0}", "tag_", "dep_", "annotation_", "pending", "WAITING", "\"", "\\", "%",
+    ];
+    let n = r.below(6);
+    let mut s = String::new();
+    for _ in 0..n {
+        s.push_str(r.pick(&pieces));
+    }
+    s
+}
+
+fn random_value(r: &mut Rng) -> String {
+    match r.below(10) {
+        0..=5 => random_number(r),
+        6 => r.pick(&["pending", "completed", "deleted", "recurring", "Pending", "", "R"]).to_string(),
+        _ => random_text(r),
+    }
+}
+
+fn random_key(r: &mut Rng) -> String {
+    let props = ["status", "description", "modified", "start", "end", "priority", "wait", "entry", "due"];
+    match r.below(10) {
+        0..=3 => r.pick(&props).to_string(),
+        4 => format!("tag_{}", random_text(r)),
+        5 => format!("annotation_{}", if r.below(4) == 0 { random_text(r) } else { random_number(r) }),
+        6 => {
+            let u = tid([1u128, 2, 3, 9][r.below(4) as usize]);
+            match r.below(7) {
+                0 => format!("dep_{}", u.hyphenated()),
+                1 => format!("dep_{}", u.simple()),
+                2 => format!("dep_{}", u.urn()),
+                3 => format!("dep_{}", u.braced()),
+                4 => format!("dep_{}", u.hyphenated().to_string().to_uppercase()),
+                5 => format!("dep_{}x", u.hyphenated()),
+                _ => format!("dep_{}", random_text(r)),
+            }
+        }
+        7 => r.pick(&["tag_WAITING", "tag_", "annotation_", "dep_", ""]).to_string(),
+        _ => {
+            let t = random_text(r);
+            // a leading '.' is split as ("", rest) by the deprecated namespaced API and cannot
+            // be told from the key without the dot; not part of what is claimed
+            t.trim_start_matches('.').to_string()
+        }
+    }
+}
+
+fn random_behaviours(n: usize, seed: u64) -> Vec<Value> {
+    let mut r = Rng(seed ^ 0x7a5c_7a5c);
+    let mut out = vec![];
+    for id in 0..n {
+        let cnt = 1 + r.below(5);
+        let mut raw: Vec<(String, String)> = vec![];
+        for _ in 0..cnt {
+            let k = random_key(&mut r);
+            if raw.iter().any(|(kk, _)| *kk == k) {
+                continue;
+            }
+            raw.push((k, random_value(&mut r)));
+        }
+        out.push(json!({"id":id,"kv":0,"vv":0,"storage":"mem",
+            "steps":[{"a":"InstallRaw","raw":raw},{"a":"Read","expire":true}]}));
+    }
+    out
+}
+
+// ---------------------------------------------------------------------------------------------
+
+async fn run_line(bh: &Value, dir: &Option<PathBuf>, n: usize, lo: i64, out: &mut Vec<Value>) {
+    if bh["storage"].as_str() == Some("sqlite") {
+        let d = dir.clone().expect("--dir for sqlite").join(format!("t{n}"));
+        let _ = std::fs::remove_dir_all(&d);
+        std::fs::create_dir_all(&d).unwrap();
+        {
+            let st = SqliteStorage::new(&d, AccessMode::ReadWrite, true).await.expect("sqlite");
+            let mut rep = Replica::new(st);
+            run_behaviour(&mut rep, bh, lo, out).await;
+        }
+        let _ = std::fs::remove_dir_all(&d);
+    } else {
+        let mut rep = Replica::new(InMemoryStorage::new());
+        run_behaviour(&mut rep, bh, lo, out).await;
+    }
+}
+
+pub fn main(args: &[String]) {
+    let cmd = args[1].as_str();
+    std::panic::set_hook(Box::new(|info| {
+        let msg = info.to_string();
+        if msg.contains("harness:") {
+            eprintln!("{msg}");
+        }
+        *LAST_PANIC.lock().unwrap() = msg;
+    }));
+    match cmd {
+        "task-read" | "task-mutate" => {
+            let out = arg(args, "--out").expect("--out");
+            let dir = arg(args, "--dir").map(PathBuf::from);
+            let lo = Utc::now().timestamp() - 5;
+            let behaviours: Vec<Value> = if let Some(n) = arg(args, "--random") {
+                let seed: u64 = arg(args, "--seed").and_then(|s| s.parse().ok()).unwrap_or(1);
+                random_behaviours(n.parse().expect("--random N"), seed)
+            } else {
+                let inp = arg(args, "--in").expect("--in");
+                let f = std::io::BufReader::new(std::fs::File::open(inp).unwrap());
+                f.lines()
+                    .map(|l| l.unwrap())
+                    .filter(|l| !l.trim().is_empty())
+                    .map(|l| serde_json::from_str(&l).expect("stimulus json"))
+                    .collect()
+            };
+            let mut o = std::io::BufWriter::new(std::fs::File::create(out).unwrap());
+            let mut n = 0usize;
+            let mut panics = 0usize;
+            local_block_on(async {
+                for bh in &behaviours {
+                    let mut lines = vec![];
+                    run_line(bh, &dir, n, lo, &mut lines).await;
+                    for l in lines {
+                        if l.get("panics").is_some() || l.get("panic").is_some() {
+                            panics += 1;
+                        }
+                        writeln!(o, "{}", serde_json::to_string(&l).unwrap()).unwrap();
+                    }
+                    n += 1;
+                }
+            });
+            o.flush().unwrap();
+            eprintln!("ran {n} behaviours, {panics} events with a panic in the code under test");
+        }
+        "task-classify" => {
+            // development aid: the class of each remaining argument
+            let now = Utc::now().timestamp();
+            for s in &args[2..] {
+                println!("{:?} value:{} key:{}", s, classify_value(s, now - 5, now + 5), classify_key(s));
+            }
+        }
+        _ => {
+            eprintln!("usage: tcverif task-read|task-mutate --in F --out F [--dir D] | task-read --random N --seed S --out F");
+            std::process::exit(2);
+        }
+    }
 }
